@@ -301,6 +301,21 @@ enum { RS_UNIFORM = 0, RS_STICKY = 1 };
 void simrand_reset(uint64_t seed, int kind);
 extern uint64_t g_rand_calls;
 
+/* ---------------------------------------------------- comparator magnitude */
+
+/* The comparison contract is "<0, 0, >0", not "-1, 0, +1": each run picks how large the non-zero results are
+ * (1, 2^16, 2^16+1, INT_MAX/INT_MIN), so a result stored in a narrow variable or subtracted shows. */
+extern unsigned g_cmp_mag;
+static inline int sim_cmp(int sign)
+{
+    switch (g_cmp_mag & 3) {
+    default: case 0: return sign;
+    case 1: return sign * 65536;
+    case 2: return sign > 0 ? 65537 : sign < 0 ? -131072 : 0;
+    case 3: return sign > 0 ? 2147483647 : sign < 0 ? (-2147483647 - 1) : 0;
+    }
+}
+
 /* ------------------------------------------------------------------ misc */
 
 static inline uint64_t fnv1a(uint64_t h, uint64_t v)
